@@ -140,8 +140,50 @@ def evaluate(case):
     cleaned = O.clean(out, IR.uses(case, "urlize"), IR.uses(case, "xmlattr"), G.XML_KEYS,
                       [k for _, k in IR.xmlattr_key_strings(case)])
     lk, other = O.leaks(cleaned, all_nonces(case))
+    if lk:
+        lk, dropped = confirm_leaks(case, lk)
+        other += dropped
     STATS["other"] = other
     return lk, out, files
+
+
+def _neutralise(x, nonces):
+    """Copy of a case fragment in which every string carrying one of the nonces has its
+    metacharacters replaced by a letter."""
+    if isinstance(x, str):
+        return re.sub(r"[<>'\"&]", "z", x) if any(n in x or n[::-1] in x for n in nonces) else x
+    if isinstance(x, list):
+        return [_neutralise(v, nonces) for v in x]
+    if isinstance(x, tuple):
+        return tuple(_neutralise(v, nonces) for v in x)
+    if isinstance(x, dict):
+        return {_neutralise(k, nonces): _neutralise(v, nonces) for k, v in x.items()}
+    return x
+
+
+def confirm_leaks(case, lk):
+    """Counterfactual confirmation.  A raw metacharacter between two copies of a nonce is the
+    datum's own only if it disappears when the datum's metacharacters are replaced by letters;
+    e.g. |replace("ab", datum) on the safe text  ab"ab  puts two copies of the datum around a
+    quote that never was data.  -> (confirmed leaks, number dropped)"""
+    nonces = {n for _, n in lk}
+    ncase = dict(case, data=_neutralise(case["data"], nonces), units=_neutralise(case["units"], nonces))
+    nout, nexc, _ = execute(ncase)
+    if nexc is not None:
+        return lk, 0
+    ncleaned = O.clean(nout, IR.uses(ncase, "urlize"), IR.uses(ncase, "xmlattr"), G.XML_KEYS,
+                       [k for _, k in IR.xmlattr_key_strings(ncase)])
+    nlk, _ = O.leaks(ncleaned, nonces)
+    remain = {}
+    for item in nlk:
+        remain[item] = remain.get(item, 0) + 1
+    kept = []
+    for item in lk:
+        if remain.get(item, 0) > 0:
+            remain[item] -= 1
+        else:
+            kept.append(item)
+    return kept, len(lk) - len(kept)
 
 
 def pick_target(cleaned_leaks):
